@@ -213,10 +213,13 @@ NamePos(c) == LET S == {j \in 1..Len(c.a) : c.a[j] = "NAME"} IN IF S = {} THEN 0
 ArgsOk(c) ==
   CASE c.k \in DefKinds -> Len(c.a) >= 1
     [] c.k \in {"ct_add_test", "ct_add_section", "add_test"} ->
-         /\ Cardinality({j \in 1..Len(c.a) : c.up[j] = "NAME"}) = 1
-         /\ NamePos(c) # 0 /\ NamePos(c) < Len(c.a)
-         /\ c.a[NamePos(c) + 1] \notin {"NAME", "EXPECTFAIL"}
-         /\ \A j \in 1..Len(c.a) : c.up[j] = "EXPECTFAIL" => c.a[j] = "EXPECTFAIL"
+         \* CMake's short form add_test(<name> <command> [<arg>...]) has no NAME keyword: it is a documentable command
+         \* of C02 (one entry, kind CTest test); how it is named is outside C11's quantifier and not judged
+         \/ (c.k = "add_test" /\ Len(c.a) >= 2 /\ \A j \in 1..Len(c.a) : c.up[j] # "NAME")
+         \/ /\ Cardinality({j \in 1..Len(c.a) : c.up[j] = "NAME"}) = 1
+            /\ NamePos(c) # 0 /\ NamePos(c) < Len(c.a)
+            /\ c.a[NamePos(c) + 1] \notin {"NAME", "EXPECTFAIL"}
+            /\ \A j \in 1..Len(c.a) : c.up[j] = "EXPECTFAIL" => c.a[j] = "EXPECTFAIL"
     [] c.k = "set" -> Len(c.a) >= 1
     [] c.k = "cpp_class" -> Len(c.a) >= 1
     [] c.k \in {"cpp_member", "cpp_constructor", "cpp_attr"} -> Len(c.a) >= 2
@@ -291,8 +294,9 @@ ReqStep(rq0, c, i, inc) ==
     [] c.k = "add_test" ->
          IF Shown(c, inc)
          THEN LET np == NamePos(c)
-                  e == [Entry("ctest", i, c) EXCEPT !.name = c.a[np + 1],
-                          !.params = SelectIdx(c.a, LAMBDA j : j # np /\ j # np + 1)]
+                  \* short form (np = 0): the entry exists and shows every argument; its name is not judged ("")
+                  e == [Entry("ctest", i, c) EXCEPT !.name = IF np = 0 THEN "" ELSE c.a[np + 1],
+                          !.params = SelectIdx(c.a, LAMBDA j : np = 0 \/ (j # np /\ j # np + 1))]
               IN [r EXCEPT !.ent[i] = e, !.top = Append(@, i)]
          ELSE r
     [] c.k = "option" ->
